@@ -499,8 +499,6 @@ Proof.
 Qed.
 
 (* ---------------------------------------------------------------- Tx::try_from on all records *)
-Fixpoint toc_all (txs : list ctx) : list csvtx := map to_csvtx txs.
-
 (* what each transaction comes back as *)
 Definition back (hasaf : bool) (t t' : ctx) (ri : N) : Prop :=
   exists af, t' = retx t af ri
@@ -571,4 +569,496 @@ Proof.
   destruct hasaf.
   - cbn [bind]. rewrite (IH tbl (ri + 1) HV' HD'). reflexivity.
   - rewrite (proj2 (Hd eq_refl)). cbn [bind]. rewrite (IH tbl (ri + 1) HV' HD'). reflexivity.
+Qed.
+
+(* ---------------------------------------------------------------- "the same transaction" *)
+Lemma dec_eqv_rp k d : valid_dec d = true -> (k <= 28)%nat -> dec_eqv d (rp_dec k d) = true.
+Proof. intros Hv Hk. apply dec_eqv_same, rp_dec_same; assumption. Qed.
+
+Lemma car_eqv_rp c : valid_car c = true -> car_eqv c (rp_car c) = true.
+Proof.
+  intros Hv. destruct (valid_car_parts c Hv) as [_ [Vr [Pr Hone]]].
+  unfold car_eqv, rp_car. destruct (car_is_default c) eqn:E.
+  - unfold car_is_default, cur_is_default in E. apply beqb_eq in E. rewrite E. cbn [c_cur c_rate car_default].
+    rewrite beqb_refl. cbn [andb]. apply dec_eqv_same. specialize (Hone eq_refl).
+    unfold dec_is_one in Hone. apply andb_prop in Hone. destruct Hone as [Hn Hm].
+    apply negb_true_iff in Hn. apply N.eqb_eq in Hm. split; [exact Hn|].
+    unfold dec_one. cbn [d_mant d_scale mk_dec]. rewrite Hm, pow10_0. lia.
+  - cbn [c_cur c_rate]. rewrite beqb_refl. apply dec_eqv_rp; [exact Vr|lia].
+Qed.
+Lemma ocar_eqv_rp o : valid_ocar o = true -> ocar_eqv o (option_map rp_car o) = true.
+Proof. destruct o as [c|]; [apply car_eqv_rp|reflexivity]. Qed.
+
+Lemma act_eqv_rp a : valid_act a = true -> act_eqv a (rp_act a) = true.
+Proof.
+  destruct a as [sh aps com cr ccr|sh aps com cr ccr sfl|aps cr|sh aps|r]; cbn [valid_act rp_act act_eqv];
+    intros Ha; rewrite ?andb_true_iff in Ha.
+  - destruct Ha as [[[[[[[V1 P1] V2] P2] V3] P3] Vc] Vcc].
+    rewrite !dec_eqv_rp, car_eqv_rp, ocar_eqv_rp by (assumption || lia). reflexivity.
+  - destruct Ha as [[[[[[[[V1 P1] V2] P2] V3] P3] Vc] Vcc] Vs].
+    rewrite !dec_eqv_rp, car_eqv_rp, ocar_eqv_rp by (assumption || lia). cbn [andb].
+    destruct sfl as [v|]; [|reflexivity]. cbn [option_map sfl_eqv].
+    destruct (sfl_roundtrip v Vs) as [_ [Hs _]]. rewrite (proj2 (dec_eqv_same _ _) Hs).
+    cbn [rp_sfl sf_force]. rewrite eqb_reflx. reflexivity.
+  - destruct Ha as [[V1 P1] Vc]. rewrite dec_eqv_rp, car_eqv_rp by (assumption || lia). reflexivity.
+  - destruct Ha as [[[V1 P1] V2] P2]. rewrite !dec_eqv_rp by (assumption || lia). reflexivity.
+  - destruct (ratio_roundtrip r Ha) as [_ [S1 [S2 [Hr _]]]]. unfold ratio_eqv.
+    rewrite (proj2 (dec_eqv_same _ _) S1), (proj2 (dec_eqv_same _ _) S2), Hr, eqb_reflx. reflexivity.
+Qed.
+
+Lemma date_eqb_refl d : date_eqb d d = true.
+Proof. unfold date_eqb. rewrite !N.eqb_refl. reflexivity. Qed.
+
+Lemma back_same tbl (hasaf glob_ok : bool) t t' ri :
+  valid_tx tbl t = true -> back hasaf t t' ri ->
+  (hasaf = false -> glob_ok = true /\ aff_is_default (x_af t) = true) ->
+  tx_same glob_ok t t' = true /\ x_ri t' = ri.
+Proof.
+  intros Hv [af [-> Haf]] Hg. unfold valid_tx in Hv. rewrite !andb_true_iff in Hv.
+  destruct Hv as [[[[Hs Htd] Hsd] Ha] Hva].
+  split; [|reflexivity]. unfold tx_same, retx. cbn [x_sec x_td x_sd x_act x_memo x_af].
+  rewrite !beqb_refl, !date_eqb_refl, (act_eqv_rp _ Ha). cbn [andb].
+  destruct Haf as [->|[Hh [Hsp Hglob]]].
+  - rewrite affdata_eqb_refl. reflexivity.
+  - destruct (Hg Hh) as [-> Hd]. rewrite Hsp, Hd, Hglob. apply orb_true_r.
+Qed.
+
+Lemma backs_same tbl (hasaf glob_ok : bool) txs : forall txs' ri,
+  Forall (fun t => valid_tx tbl t = true) txs -> backs hasaf txs txs' ri ->
+  (hasaf = false -> glob_ok = true /\ Forall (fun t => aff_is_default (x_af t) = true) txs) ->
+  forall2b (tx_same glob_ok) txs txs' = true /\ ri_from ri txs' = true.
+Proof.
+  induction txs as [|t txs IH]; intros txs' ri HV HB Hg; destruct txs' as [|t' txs']; cbn in HB; try contradiction.
+  - split; reflexivity.
+  - destruct HB as [B1 B2]. pose proof (Forall_inv HV) as Hv. pose proof (Forall_inv_tail HV) as HV'.
+    assert (Hg1 : hasaf = false -> glob_ok = true /\ aff_is_default (x_af t) = true).
+    { intros E. destruct (Hg E) as [G F]. split; [exact G|exact (Forall_inv F)]. }
+    assert (Hg' : hasaf = false -> glob_ok = true /\ Forall (fun t => aff_is_default (x_af t) = true) txs).
+    { intros E. destruct (Hg E) as [G F]. split; [exact G|exact (Forall_inv_tail F)]. }
+    destruct (back_same tbl hasaf glob_ok t t' ri Hv B1 Hg1) as [S R].
+    destruct (IH txs' (ri + 1) HV' B2 Hg') as [S' R'].
+    cbn [forall2b ri_from]. rewrite S, S', R, R', N.eqb_refl. split; reflexivity.
+Qed.
+
+(* ---------------------------------------------------------------- the affiliate column *)
+Lemma dflt_eq tbl a :
+  valid_aff tbl a = true -> affdata_eqb a (fst (af_default tbl)) = aff_is_default a.
+Proof.
+  intros Hv. destruct (valid_aff_intern tbl a Hv) as [_ [_ Hf]].
+  unfold af_default, intern. rewrite default_id_data. unfold aff_is_default.
+  destruct (tbl_find s_default_id tbl) as [b|] eqn:E; cbn [fst].
+  - destruct (beqb (a_id a) s_default_id) eqn:Ed.
+    + apply beqb_eq in Ed. rewrite Ed in Hf. rewrite Hf in E. inversion E; subst. apply affdata_eqb_refl.
+    + unfold affdata_eqb. rewrite (tbl_find_id _ _ _ E), Ed. reflexivity.
+  - destruct (beqb (a_id a) s_default_id) eqn:Ed.
+    + apply beqb_eq in Ed. rewrite Ed in Hf. rewrite Hf in E. discriminate.
+    + unfold affdata_eqb. rewrite default_id_data, Ed. reflexivity.
+Qed.
+
+Lemma af_in_use tbl txs :
+  Forall (fun t => valid_tx tbl t = true) txs ->
+  col_in_use (fst (af_default tbl)) (map to_csvtx txs) KAf = negb (no_named_affiliate txs).
+Proof.
+  intros HV. cbn [col_in_use]. unfold no_named_affiliate.
+  induction txs as [|t txs IH]; [reflexivity|].
+  pose proof (Forall_inv HV) as Hv. pose proof (Forall_inv_tail HV) as HV'.
+  cbn [map existsb forallb]. rewrite (IH HV'), negb_andb. f_equal.
+  assert (Ea : v_af (to_csvtx t) = Some (x_af t)) by (unfold to_csvtx; destruct (x_act t); reflexivity).
+  rewrite Ea. f_equal. apply dflt_eq.
+  unfold valid_tx in Hv. rewrite !andb_true_iff in Hv. apply Hv.
+Qed.
+
+Lemma v_af_some t : v_af (to_csvtx t) = Some (x_af t).
+Proof. unfold to_csvtx; destruct (x_act t); reflexivity. Qed.
+
+Lemma in_use_member dflt vs v k :
+  In v vs ->
+  match k with
+  | KFx => is_some (v_fx v) | KCcur => is_some (v_ccur v) | KCfx => is_some (v_cfx v)
+  | KSfl => is_some (v_sfl v) | KRatio => is_some (v_ratio v) | _ => false
+  end = true ->
+  col_in_use dflt vs k = true.
+Proof.
+  intros Hin H. destruct k; try discriminate; cbn [col_in_use]; apply existsb_exists; exists v; auto.
+Qed.
+
+Lemma rows_ok tbl dflt txs (hasaf : bool) :
+  Forall (fun t => valid_tx tbl t = true) txs ->
+  let vs := map to_csvtx txs in
+  let hdr := table_header dflt vs in
+  Forall (row_ok tbl hdr hasaf) vs.
+Proof.
+  intros HV vs hdr. apply Forall_forall. intros v Hv.
+  destruct (header_props dflt vs) as [_ [_ [_ [_ Huse]]]]. fold hdr in Huse.
+  unfold vs in Hv. apply in_map_iff in Hv. destruct Hv as [t [<- Ht]].
+  assert (Hin : In (to_csvtx t) vs) by (apply in_map; exact Ht).
+  split; [apply to_csvtx_valid; apply (proj1 (Forall_forall _ _) HV); exact Ht|].
+  repeat split; intros H.
+  - apply Huse; [cbn; auto 20|]. apply (in_use_member dflt vs _ KFx Hin H).
+  - apply Huse; [cbn; auto 20|]. apply (in_use_member dflt vs _ KCcur Hin H).
+  - apply Huse; [cbn; auto 20|]. apply (in_use_member dflt vs _ KCfx Hin H).
+  - apply Huse; [cbn; auto 20|]. apply (in_use_member dflt vs _ KSfl Hin H).
+  - apply Huse; [cbn; auto 20|]. apply (in_use_member dflt vs _ KRatio Hin H).
+  - rewrite v_af_some. reflexivity.
+Qed.
+
+(* ---------------------------------------------------------------- C11: the round trip on cells *)
+Lemma forallb_Forall {T} (f : T -> bool) l : forallb f l = true <-> Forall (fun x => f x = true) l.
+Proof. rewrite forallb_forall, Forall_forall. tauto. Qed.
+
+Lemma tbl_find_snoc id t d : tbl_find id t = None -> a_id d = id -> tbl_find id (t ++ [d]) = Some d.
+Proof.
+  intros Hn Hd. induction t as [|b r IH]; cbn [app tbl_find] in *.
+  - rewrite Hd, beqb_refl. reflexivity.
+  - destruct (beqb (a_id b) id); [discriminate|]. apply IH. exact Hn.
+Qed.
+
+Lemma written_table_facts tbl txs :
+  Forall (fun t => valid_tx tbl t = true) txs ->
+  exists dflt tblw hdr,
+    write_table tbl txs = ((map col_name hdr, map (fun v => map (cell v) hdr) (map to_csvtx txs)), tblw)
+    /\ hdr = table_header dflt (map to_csvtx txs)
+    /\ fst (af_default tbl) = dflt /\ fst (af_default tblw) = dflt
+    /\ Forall (fun t => valid_tx tblw t = true) txs.
+Proof.
+  intros HV. unfold write_table, csv_table. destruct (af_default tbl) as [dflt tbl1] eqn:Ed.
+  exists dflt, (if existsb (fun v => is_some (v_af v)) (map to_csvtx txs) then tbl1 else tbl),
+         (table_header dflt (map to_csvtx txs)).
+  repeat split; auto.
+  - destruct (existsb _ _); [|rewrite Ed; reflexivity].
+    unfold af_default in *. unfold intern in *. rewrite default_id_data in *.
+    destruct (tbl_find s_default_id tbl) as [b|] eqn:E; inversion Ed; subst.
+    + rewrite E. reflexivity.
+    + rewrite (tbl_find_snoc _ _ _ E default_id_data). reflexivity.
+  - destruct (existsb _ _); [|exact HV]. apply Forall_forall. intros t Ht.
+    apply (valid_tx_grows tbl tbl1); [apply (intern_grows tbl [] dflt tbl1); exact Ed|].
+    apply (proj1 (Forall_forall _ _) HV). exact Ht.
+Qed.
+
+Lemma read_written_rows tblw dflt txs :
+  Forall (fun t => valid_tx tblw t = true) txs ->
+  let vs := map to_csvtx txs in
+  let hdr := table_header dflt vs in
+  parse_table tblw (map col_name hdr) (map (fun v => map (cell v) hdr) vs) 0
+  = Ok (reread_all (inhdr hdr KAf) vs 0, tblw).
+Proof.
+  intros HV vs hdr. destruct (header_props dflt vs) as [Hnd [Hleg [Hreq _]]]. fold hdr in Hnd, Hleg, Hreq.
+  unfold parse_table. rewrite header_cols_names, !has_col_map.
+  assert (El : inhdr hdr KLegacy = false).
+  { destruct (inhdr hdr KLegacy) eqn:E; [|reflexivity]. apply inhdr_In in E. contradiction. }
+  rewrite El, andb_false_r.
+  apply parse_rows_written; auto. apply rows_ok. exact HV.
+Qed.
+
+Lemma no_column_all_default tbl dflt txs :
+  Forall (fun t => valid_tx tbl t = true) txs -> fst (af_default tbl) = dflt ->
+  inhdr (table_header dflt (map to_csvtx txs)) KAf = negb (no_named_affiliate txs).
+Proof.
+  intros HV Ed. destruct (header_props dflt (map to_csvtx txs)) as [_ [_ [_ [Hin Huse]]]].
+  rewrite <- (af_in_use tbl txs HV), Ed.
+  destruct (col_in_use dflt (map to_csvtx txs) KAf) eqn:E.
+  - apply Huse; [cbn; auto 20|exact E].
+  - destruct (inhdr _ KAf) eqn:E'; [|reflexivity]. rewrite (Hin KAf E' eq_refl) in E. discriminate.
+Qed.
+
+Theorem table_roundtrip tbl txs :
+  forallb (valid_tx tbl) txs = true ->
+  exists txs' tbl2,
+    read_table (snd (write_table tbl txs)) (fst (fst (write_table tbl txs))) (snd (fst (write_table tbl txs)))
+    = Ok (txs', tbl2)
+    /\ forall2b (tx_same (no_named_affiliate txs)) txs txs' = true /\ ri_from 0 txs' = true.
+Proof.
+  intros HV. apply forallb_Forall in HV.
+  destruct (written_table_facts tbl txs HV) as [dflt [tblw [hdr [Ew [Eh [Ed [Edw HVw]]]]]]].
+  rewrite Ew. cbn [fst snd]. unfold read_table. subst hdr.
+  rewrite (read_written_rows tblw dflt txs HVw). cbn [bind].
+  set (hasaf := inhdr (table_header dflt (map to_csvtx txs)) KAf).
+  assert (Hh : hasaf = negb (no_named_affiliate txs)) by (apply (no_column_all_default tbl); assumption).
+  assert (Hdef : hasaf = false -> Forall (fun t => aff_is_default (x_af t) = true) txs).
+  { intros E. rewrite E in Hh. symmetry in Hh. apply negb_false_iff in Hh.
+    unfold no_named_affiliate in Hh. apply forallb_Forall in Hh. exact Hh. }
+  destruct (try_from_all hasaf txs tblw 0 HVw Hdef) as [txs' [tbl2 [E B]]].
+  exists txs', tbl2. split; [exact E|].
+  apply (backs_same tblw hasaf (no_named_affiliate txs) txs txs' 0 HVw B).
+  intros E0. split; [|apply Hdef; exact E0]. rewrite E0 in Hh. symmetry in Hh. apply negb_false_iff in Hh. exact Hh.
+Qed.
+
+(* ---------------------------------------------------------------- the second generation *)
+Definition csv_like (v v' : csvtx) : Prop :=
+  (forall k, cell v' k = cell v k)
+  /\ is_some (v_fx v') = is_some (v_fx v) /\ is_some (v_ccur v') = is_some (v_ccur v)
+  /\ is_some (v_cfx v') = is_some (v_cfx v) /\ is_some (v_sfl v') = is_some (v_sfl v)
+  /\ is_some (v_ratio v') = is_some (v_ratio v) /\ v_af v' = v_af v.
+
+Lemma like_in_use dflt vs vs' k : Forall2 csv_like vs vs' -> col_in_use dflt vs' k = col_in_use dflt vs k.
+Proof.
+  induction 1 as [|v v' vs vs' [_ [H1 [H2 [H3 [H4 [H5 H6]]]]]] _ IH]; [reflexivity|].
+  destruct k; cbn [col_in_use existsb] in *; rewrite ?IH, ?H1, ?H2, ?H3, ?H4, ?H5, ?H6; reflexivity.
+Qed.
+Lemma like_table dflt vs vs' :
+  Forall2 csv_like vs vs' ->
+  table_header dflt vs' = table_header dflt vs
+  /\ forall hdr, map (fun v => map (cell v) hdr) vs' = map (fun v => map (cell v) hdr) vs.
+Proof.
+  intros H. split.
+  - unfold table_header. apply filter_ext. intros c. rewrite (like_in_use dflt vs vs' c H). reflexivity.
+  - intros hdr. induction H as [|v v' vs vs' [Hc _] _ IH]; [reflexivity|]. cbn [map]. rewrite IH. f_equal.
+    apply map_ext. intros k. apply Hc.
+Qed.
+
+Lemma rp_car_cur c : valid_car c = true -> c_cur (rp_car c) = c_cur c.
+Proof.
+  intros _. unfold rp_car. destruct (car_is_default c) eqn:E; [|reflexivity].
+  unfold car_is_default, cur_is_default in E. apply beqb_eq in E. rewrite E. reflexivity.
+Qed.
+Lemma rp_car_default c : car_is_default (rp_car c) = car_is_default c.
+Proof. unfold rp_car. destruct (car_is_default c) eqn:E; [reflexivity|exact E]. Qed.
+Lemma rp_car_rate c : rate_opt (rp_car c) = option_map (rp_dec 0) (rate_opt c).
+Proof.
+  unfold rate_opt. rewrite rp_car_default. unfold rp_car. destruct (car_is_default c); reflexivity.
+Qed.
+Lemma tsmp_rp k d : valid_dec d = true -> (k <= 28)%nat -> tsmp k (rp_dec k d) = tsmp k d.
+Proof. intros Hv Hk. apply rp_dec_spec; assumption. Qed.
+
+Lemma like_retx tbl t ri :
+  valid_tx tbl t = true -> trim (x_memo t) = x_memo t ->
+  csv_like (to_csvtx t) (to_csvtx (retx t (x_af t) ri)).
+Proof.
+  intros Hv Hm. unfold valid_tx in Hv. rewrite !andb_true_iff in Hv. destruct Hv as [[[[Hs Htd] Hsd] Ha] Haf].
+  unfold csv_like, retx, to_csvtx. cbn [x_sec x_td x_sd x_act x_memo x_af x_ri]. rewrite Hm.
+  destruct (x_act t) as [sh aps com cr ccr|sh aps com cr ccr sfl|aps cr|sh aps|r];
+    cbn [valid_act] in Ha; rewrite ?andb_true_iff in Ha; cbn [rp_act].
+  - destruct Ha as [[[[[[[V1 P1] V2] P2] V3] P3] Vc] Vcc].
+    assert (Ec : option_map c_cur (option_map rp_car ccr) = option_map c_cur ccr).
+    { destruct ccr as [c|]; [|reflexivity]. cbn. rewrite rp_car_cur by exact Vcc. reflexivity. }
+    assert (Er : match option_map rp_car ccr with Some c => rate_opt c | None => None end
+                 = option_map (rp_dec 0) (match ccr with Some c => rate_opt c | None => None end)).
+    { destruct ccr as [c|]; [|reflexivity]. cbn. apply rp_car_rate. }
+    repeat split; cbn [v_fx v_ccur v_cfx v_sfl v_ratio v_af];
+      rewrite ?Ec, ?Er, ?rp_car_rate; try reflexivity.
+    + intros k. destruct k; cbn [cell oshow v_sec v_td v_sd v_act v_sh v_aps v_com v_cur v_fx v_ccur v_cfx v_sfl v_ratio v_af v_memo];
+        rewrite ?Ec, ?Er, ?rp_car_rate, ?rp_car_cur by assumption; try reflexivity;
+        try (rewrite tsmp_rp by (assumption || lia); reflexivity).
+      * destruct (rate_opt cr) as [x|] eqn:E; [|reflexivity]. cbn [option_map oshow].
+        apply tsmp_rp; [|lia]. apply (rate_opt_valid cr Vc x E).
+      * destruct (match ccr with Some c => rate_opt c | None => None end) as [x|] eqn:E; [|reflexivity].
+        cbn [option_map oshow]. apply tsmp_rp; [|lia]. destruct ccr as [c|]; [|discriminate].
+        apply (rate_opt_valid c Vcc x E).
+    + destruct (rate_opt cr); reflexivity.
+    + destruct (match ccr with Some c => rate_opt c | None => None end); reflexivity.
+  - destruct Ha as [[[[[[[[V1 P1] V2] P2] V3] P3] Vc] Vcc] Vs].
+    assert (Ec : option_map c_cur (option_map rp_car ccr) = option_map c_cur ccr).
+    { destruct ccr as [c|]; [|reflexivity]. cbn. rewrite rp_car_cur by exact Vcc. reflexivity. }
+    assert (Er : match option_map rp_car ccr with Some c => rate_opt c | None => None end
+                 = option_map (rp_dec 0) (match ccr with Some c => rate_opt c | None => None end)).
+    { destruct ccr as [c|]; [|reflexivity]. cbn. apply rp_car_rate. }
+    repeat split; cbn [v_fx v_ccur v_cfx v_sfl v_ratio v_af];
+      rewrite ?Ec, ?Er, ?rp_car_rate; try reflexivity.
+    + intros k. destruct k; cbn [cell oshow v_sec v_td v_sd v_act v_sh v_aps v_com v_cur v_fx v_ccur v_cfx v_sfl v_ratio v_af v_memo];
+        rewrite ?Ec, ?Er, ?rp_car_rate, ?rp_car_cur by assumption; try reflexivity;
+        try (rewrite tsmp_rp by (assumption || lia); reflexivity).
+      * destruct (rate_opt cr) as [x|] eqn:E; [|reflexivity]. cbn [option_map oshow].
+        apply tsmp_rp; [|lia]. apply (rate_opt_valid cr Vc x E).
+      * destruct (match ccr with Some c => rate_opt c | None => None end) as [x|] eqn:E; [|reflexivity].
+        cbn [option_map oshow]. apply tsmp_rp; [|lia]. destruct ccr as [c|]; [|discriminate].
+        apply (rate_opt_valid c Vcc x E).
+      * destruct sfl as [v|]; [|reflexivity]. cbn [option_map oshow]. apply sfl_roundtrip. exact Vs.
+    + destruct (rate_opt cr); reflexivity.
+    + destruct (match ccr with Some c => rate_opt c | None => None end); reflexivity.
+    + destruct sfl; reflexivity.
+  - destruct Ha as [[V1 P1] Vc].
+    repeat split; cbn [v_fx v_ccur v_cfx v_sfl v_ratio v_af]; rewrite ?rp_car_rate; try reflexivity.
+    + intros k. destruct k; cbn [cell oshow v_sec v_td v_sd v_act v_sh v_aps v_com v_cur v_fx v_ccur v_cfx v_sfl v_ratio v_af v_memo];
+        rewrite ?rp_car_rate, ?rp_car_cur by assumption; try reflexivity;
+        try (rewrite tsmp_rp by (assumption || lia); reflexivity).
+      destruct (rate_opt cr) as [x|] eqn:E; [|reflexivity]. cbn [option_map oshow].
+      apply tsmp_rp; [|lia]. apply (rate_opt_valid cr Vc x E).
+    + destruct (rate_opt cr); reflexivity.
+  - destruct Ha as [[[V1 P1] V2] P2].
+    repeat split; try reflexivity.
+    intros k. destruct k; cbn [cell oshow v_sec v_td v_sd v_act v_sh v_aps v_com v_cur v_fx v_ccur v_cfx v_sfl v_ratio v_af v_memo];
+      try reflexivity; rewrite tsmp_rp by (assumption || lia); reflexivity.
+  - repeat split; try reflexivity.
+    intros k. destruct k; cbn [cell oshow v_sec v_td v_sd v_act v_sh v_aps v_com v_cur v_fx v_ccur v_cfx v_sfl v_ratio v_af v_memo];
+      try reflexivity. apply ratio_roundtrip. exact Ha.
+Qed.
+
+Lemma like_retx_all tbl txs : forall ri,
+  Forall (fun t => valid_tx tbl t = true) txs -> K_memo_untrimmed txs = false ->
+  Forall2 csv_like (map to_csvtx txs) (map to_csvtx (retx_all txs ri)).
+Proof.
+  induction txs as [|t txs IH]; intros ri HV HK; [constructor|].
+  cbn [K_memo_untrimmed existsb] in HK. apply orb_false_iff in HK. destruct HK as [Hm HK].
+  apply negb_false_iff, beqb_eq in Hm.
+  cbn [map retx_all]. constructor.
+  - apply (like_retx tbl); [exact (Forall_inv HV)|exact Hm].
+  - apply IH; [exact (Forall_inv_tail HV)|exact HK].
+Qed.
+
+Theorem table_idempotent tbl txs :
+  forallb (valid_tx tbl) txs = true -> K_memo_untrimmed txs = false -> K_default_split txs = false ->
+  exists txs' tbl2,
+    read_table (snd (write_table tbl txs)) (fst (fst (write_table tbl txs))) (snd (fst (write_table tbl txs)))
+    = Ok (txs', tbl2)
+    /\ fst (write_table tbl2 txs') = fst (write_table tbl txs).
+Proof.
+  intros HV Km Ks. apply forallb_Forall in HV.
+  destruct (written_table_facts tbl txs HV) as [dflt [tblw [hdr [Ew [Eh [Ed [Edw HVw]]]]]]].
+  rewrite Ew. cbn [fst snd]. unfold read_table. subst hdr.
+  rewrite (read_written_rows tblw dflt txs HVw). cbn [bind].
+  set (hasaf := inhdr (table_header dflt (map to_csvtx txs)) KAf).
+  assert (Hh : hasaf = negb (no_named_affiliate txs)) by (apply (no_column_all_default tbl); assumption).
+  assert (Hdef : hasaf = false ->
+                 Forall (fun t => aff_is_default (x_af t) = true /\ is_xsplit (x_act t) = false) txs).
+  { intros E. rewrite E in Hh. symmetry in Hh. apply negb_false_iff in Hh.
+    unfold K_default_split in Ks. rewrite Hh in Ks. cbn [andb] in Ks.
+    unfold no_named_affiliate in Hh. rewrite forallb_forall in Hh.
+    apply Forall_forall. intros t Ht. split; [apply Hh; exact Ht|].
+    destruct (is_xsplit (x_act t)) eqn:Es; [|reflexivity].
+    assert (existsb (fun t => is_xsplit (x_act t)) txs = true) by (apply existsb_exists; exists t; auto).
+    congruence. }
+  rewrite (try_from_all_plain hasaf txs tblw 0 HVw Hdef).
+  exists (retx_all txs 0), tblw. split; [reflexivity|].
+  unfold write_table, csv_table. destruct (af_default tblw) as [d2 t2] eqn:E2. cbn [fst] in Edw. subst d2.
+  cbn [fst]. destruct (like_table dflt _ _ (like_retx_all tblw txs 0 HVw Km)) as [Hhdr Hrows].
+  rewrite Hhdr, Hrows. reflexivity.
+Qed.
+
+(* ---------------------------------------------------------------- C11 on bytes (csv layer as hypothesis) *)
+Section Bytes.
+  Variable cw : list (list bytes) -> bytes.
+  Variable cr : bytes -> res (list (list bytes)).
+  Hypothesis layer : csv_layer_ok cw cr.
+
+  Lemma read_write_bytes tbl txs :
+    Forall (fun t => valid_tx tbl t = true) txs ->
+    read cr (snd (write cw tbl txs)) (fst (write cw tbl txs))
+    = read_table (snd (write_table tbl txs)) (fst (fst (write_table tbl txs))) (snd (fst (write_table tbl txs))).
+  Proof.
+    intros HV. destruct (written_table_facts tbl txs HV) as [dflt [tblw [hdr [Ew [Eh _]]]]].
+    unfold write. rewrite Ew. cbn [fst snd]. unfold read. rewrite layer; [reflexivity| |].
+    - destruct (header_props dflt (map to_csvtx txs)) as [_ [_ [Hreq _]]]. rewrite <- Eh in Hreq.
+      assert (Hs : In KSec hdr) by (apply inhdr_In, Hreq; [cbn; auto|reflexivity]).
+      destruct hdr; [contradiction|discriminate].
+    - apply Forall_forall. intros r Hr. apply in_map_iff in Hr. destruct Hr as [v [<- _]].
+      rewrite !map_length. reflexivity.
+  Qed.
+
+  Theorem roundtrip_bytes tbl txs :
+    forallb (valid_tx tbl) txs = true ->
+    exists txs' tbl2,
+      read cr (snd (write cw tbl txs)) (fst (write cw tbl txs)) = Ok (txs', tbl2)
+      /\ forall2b (tx_same (no_named_affiliate txs)) txs txs' = true /\ ri_from 0 txs' = true.
+  Proof.
+    intros HV. rewrite read_write_bytes by (apply forallb_Forall; exact HV). apply table_roundtrip. exact HV.
+  Qed.
+
+  Theorem idempotent_bytes tbl txs :
+    forallb (valid_tx tbl) txs = true -> K_memo_untrimmed txs = false -> K_default_split txs = false ->
+    exists txs' tbl2,
+      read cr (snd (write cw tbl txs)) (fst (write cw tbl txs)) = Ok (txs', tbl2)
+      /\ fst (write cw tbl2 txs') = fst (write cw tbl txs).
+  Proof.
+    intros HV Km Ks. rewrite read_write_bytes by (apply forallb_Forall; exact HV).
+    destruct (table_idempotent tbl txs HV Km Ks) as [txs' [tbl2 [E W]]].
+    exists txs', tbl2. split; [exact E|]. unfold write.
+    destruct (write_table tbl2 txs') as [[h2 r2] t2]. destruct (write_table tbl txs) as [[h1 r1] t1].
+    cbn [fst] in *. inversion W; subst. reflexivity.
+  Qed.
+
+  (* the writer is injective on well-formed tables *)
+  Lemma write_injective h1 r1 h2 r2 :
+    h1 <> [] -> Forall (fun r => length r = length h1) r1 ->
+    h2 <> [] -> Forall (fun r => length r = length h2) r2 ->
+    cw (h1 :: r1) = cw (h2 :: r2) -> h1 :: r1 = h2 :: r2.
+  Proof.
+    intros A1 B1 A2 B2 E. pose proof (layer h1 r1 A1 B1) as L1. pose proof (layer h2 r2 A2 B2) as L2.
+    rewrite E in L1. rewrite L1 in L2. inversion L2. reflexivity.
+  Qed.
+End Bytes.
+
+(* ---------------------------------------------------------------- the two classes are real *)
+Definition wit_tbl : aftable := [from_strep_data []].
+Definition wit_buy (memo : bytes) : ctx :=
+  {| x_sec := [70; 79; 79]; x_td := {| dt_y := 2021; dt_m := 3; dt_d := 4 |};
+     x_sd := {| dt_y := 2021; dt_m := 3; dt_d := 6 |};
+     x_act := XBuy (mk_dec false 10 0) (mk_dec false 150 2) (mk_dec false 0 2) car_default None;
+     x_memo := memo; x_af := from_strep_data []; x_ri := 0 |}.
+Definition wit_split : ctx :=
+  {| x_sec := [70; 79; 79]; x_td := {| dt_y := 2021; dt_m := 5; dt_d := 1 |};
+     x_sd := {| dt_y := 2021; dt_m := 5; dt_d := 1 |};
+     x_act := XSplit {| r_post := mk_dec false 2 0; r_pre := mk_dec false 1 0; r_rio := false |};
+     x_memo := []; x_af := from_strep_data []; x_ri := 7 |}.
+
+Definition second_differs (tbl : aftable) (txs : list ctx) : Prop :=
+  match read_table (snd (write_table tbl txs)) (fst (fst (write_table tbl txs))) (snd (fst (write_table tbl txs))) with
+  | Ok (txs', tbl2) => fst (write_table tbl2 txs') <> fst (write_table tbl txs)
+  | _ => False
+  end.
+
+Lemma memo_witness :
+  forallb (valid_tx wit_tbl) [wit_buy [32; 120]] = true
+  /\ K_memo_untrimmed [wit_buy [32; 120]] = true /\ K_default_split [wit_buy [32; 120]] = false
+  /\ second_differs wit_tbl [wit_buy [32; 120]].
+Proof.
+  repeat split; try (vm_compute; reflexivity). unfold second_differs. vm_compute. intros H. discriminate H.
+Qed.
+Lemma split_witness :
+  forallb (valid_tx wit_tbl) [wit_split] = true
+  /\ K_memo_untrimmed [wit_split] = false /\ K_default_split [wit_split] = true
+  /\ second_differs wit_tbl [wit_split].
+Proof.
+  repeat split; try (vm_compute; reflexivity). unfold second_differs. vm_compute. intros H. discriminate H.
+Qed.
+
+(* ---------------------------------------------------------------- the csv-layer hypothesis is satisfiable *)
+(* a length-prefixed encoding of tables (NOT the csv crate: only a witness
+   that [csv_layer_ok] has a model, for the non-vacuity examples) *)
+Definition enc_bytes (b : bytes) : bytes := N.of_nat (length b) :: b.
+Definition enc_rec (r : list bytes) : bytes := N.of_nat (length r) :: flat_map enc_bytes r.
+Definition toy_cw (recs : list (list bytes)) : bytes := N.of_nat (length recs) :: flat_map enc_rec recs.
+
+Definition dec_bytes (l : bytes) : option (bytes * bytes) :=
+  match l with
+  | n :: r => if (N.to_nat n <=? length r)%nat then Some (firstn (N.to_nat n) r, skipn (N.to_nat n) r) else None
+  | [] => None
+  end.
+Fixpoint dec_many {T} (dec : bytes -> option (T * bytes)) (k : nat) (l : bytes) : option (list T * bytes) :=
+  match k with
+  | O => Some ([], l)
+  | S k' => match dec l with
+            | Some (x, r) => match dec_many dec k' r with Some (xs, r') => Some (x :: xs, r') | None => None end
+            | None => None
+            end
+  end.
+Definition dec_rec (l : bytes) : option (list bytes * bytes) :=
+  match l with n :: r => dec_many dec_bytes (N.to_nat n) r | [] => None end.
+Definition toy_cr (l : bytes) : res (list (list bytes)) :=
+  match l with
+  | n :: r => match dec_many dec_rec (N.to_nat n) r with Some (recs, []) => Ok recs | _ => Rej (RejParse 30) end
+  | [] => Rej (RejParse 30)
+  end.
+
+Lemma dec_bytes_enc b rest : dec_bytes (enc_bytes b ++ rest) = Some (b, rest).
+Proof.
+  unfold dec_bytes, enc_bytes. cbn [app]. rewrite Nat2N.id, app_length.
+  destruct (Nat.leb_spec (length b) (length b + length rest)); [|lia].
+  rewrite firstn_app, Nat.sub_diag, firstn_all, skipn_app, Nat.sub_diag, skipn_all. cbn. rewrite app_nil_r. reflexivity.
+Qed.
+Lemma dec_many_enc {T} (dec : bytes -> option (T * bytes)) (enc : T -> bytes) :
+  (forall x rest, dec (enc x ++ rest) = Some (x, rest)) ->
+  forall xs rest, dec_many dec (length xs) (flat_map enc xs ++ rest) = Some (xs, rest).
+Proof.
+  intros H xs. induction xs as [|x xs IH]; intros rest; [reflexivity|].
+  cbn [length flat_map dec_many]. rewrite <- app_assoc, H, IH. reflexivity.
+Qed.
+Lemma dec_rec_enc r rest : dec_rec (enc_rec r ++ rest) = Some (r, rest).
+Proof.
+  unfold dec_rec, enc_rec. cbn [app]. rewrite Nat2N.id. apply dec_many_enc. apply dec_bytes_enc.
+Qed.
+Lemma toy_layer_ok : csv_layer_ok toy_cw toy_cr.
+Proof.
+  intros h rows _ _. unfold toy_cr, toy_cw. rewrite Nat2N.id.
+  rewrite <- (app_nil_r (flat_map enc_rec (h :: rows))).
+  rewrite (dec_many_enc dec_rec enc_rec dec_rec_enc). reflexivity.
 Qed.
